@@ -16,18 +16,20 @@ import (
 	"time"
 
 	"github.com/rs/zerolog"
+	"verifharness/hlib"
+	. "verifharness/hlib"
 )
 
-func init() { runners["C13"] = runC13 }
+func main() { hlib.Main(map[string]func(*hlib.Ctx){"C13": runC13}) }
 
 type SCfg struct {
-	Kind    string `json:"kind"`
-	N       uint32 `json:"n,omitempty"`
-	Cnt     uint32 `json:"cnt,omitempty"`
-	Burst   uint32 `json:"burst,omitempty"`
-	Period  int64  `json:"period,omitempty"`
-	Next    *SCfg  `json:"next,omitempty"`
-	ResetAt int64  `json:"reset_at,omitempty"`
+	Kind    string   `json:"kind"`
+	N       uint32   `json:"n,omitempty"`
+	Cnt     uint32   `json:"cnt,omitempty"`
+	Burst   uint32   `json:"burst,omitempty"`
+	Period  int64    `json:"period,omitempty"`
+	Next    *SCfg    `json:"next,omitempty"`
+	ResetAt int64    `json:"reset_at,omitempty"`
 	Sub     [5]*SCfg `json:"sub,omitempty"` // trace, debug, info, warn, error
 }
 
@@ -122,7 +124,7 @@ func (c *SCfg) coq1() string {
 	case "basic":
 		return fmt.Sprintf("(SBasic %d %d)", c.N, c.Cnt)
 	case "burst":
-		return fmt.Sprintf("(SBurst %d %s %s %d %s)", c.Burst, coqZ(c.Period), c.Next.coq(), c.Cnt, coqZ(c.ResetAt))
+		return fmt.Sprintf("(SBurst %d %s %s %d %s)", c.Burst, CoqZ(c.Period), c.Next.coq(), c.Cnt, CoqZ(c.ResetAt))
 	default:
 		return fmt.Sprintf("(SLevel %s %s %s %s %s)", c.Sub[0].coq(), c.Sub[1].coq(), c.Sub[2].coq(), c.Sub[3].coq(), c.Sub[4].coq())
 	}
@@ -271,15 +273,15 @@ func genHistory(r *Rng, n int, extreme bool) []ev {
 
 func (g gateCfg) coq() string {
 	return fmt.Sprintf("{| g_has_writer := %s; g_level := %s; g_global := %s; g_sampling_disabled := %s; g_sampler := %s |}",
-		coqBool(g.HasWriter), coqZ(int64(g.Level)), coqZ(int64(g.Global)), coqBool(g.Disabled), g.Sampler.coq())
+		CoqBool(g.HasWriter), CoqZ(int64(g.Level)), CoqZ(int64(g.Global)), CoqBool(g.Disabled), g.Sampler.coq())
 }
 
 func histCoq(h []ev) string {
 	xs := make([]string, len(h))
 	for i, e := range h {
-		xs[i] = fmt.Sprintf("(%s,%s)", coqZ(e.Now), coqZ(int64(e.Lvl)))
+		xs[i] = fmt.Sprintf("(%s,%s)", CoqZ(e.Now), CoqZ(int64(e.Lvl)))
 	}
-	return coqList(xs) + "%Z"
+	return CoqList(xs) + "%Z"
 }
 
 func ceilDiv(k, n int) int { return (k + n - 1) / n }
@@ -489,7 +491,7 @@ func runC13(c *Ctx) {
 	emit := func(g gateCfg, h []ev) {
 		got, _ := runGateImpl(g, h, nil)
 		c13monitor(c, g, h, got)
-		term := fmt.Sprintf("((%s, %s), %s)", g.coq(), histCoq(h), coqBools(got))
+		term := fmt.Sprintf("((%s, %s), %s)", g.coq(), histCoq(h), CoqBools(got))
 		j := map[string]interface{}{"gate": g, "history": h, "decisions": got}
 		c.AddCase(term, j)
 		adm, rej := false, false
